@@ -164,11 +164,16 @@ func runC19(t *testing.T, r *simkit.Run) {
 	defer func() { statefile.VerifCrashPointHook = nil }()
 
 	havePrev := tp.Intn(4) != 0
+	ni := tp.Intn(len(pool))
 	if havePrev {
-		p := pool[tp.Intn(len(pool))]
+		pi := tp.Intn(len(pool))
+		if pi == ni && len(pool) > 1 && !tp.Chance(1, 8) {
+			pi = (ni + 1 + tp.Intn(len(pool)-1)) % len(pool) // usually a different state (older or newer)
+		}
+		p := pool[pi]
 		c.prev = &p
 	}
-	c.next = pool[tp.Intn(len(pool))]
+	c.next = pool[ni]
 	c.third = pool[tp.Intn(len(pool))]
 	c.canonNext = vsCanon(c.next)
 	r.Config["pool"] = len(pool)
@@ -445,7 +450,7 @@ func (c *vsC19) checkDisk(s vsCrashSnap, d vsDisk) {
 
 	// a later Save + Load on the crashed disk: stray temp files must not matter
 	stray := vsCountTmp(d.files)
-	if (stray > 0 && !c.laterDone) || r.Tape.Chance(1, 4) {
+	if (stray > 0 && !c.laterDone) || r.Tape.Chance(1, 6) {
 		if stray > 0 {
 			c.laterDone = true
 			r.Probe("later_save.with_stray_tmp")
